@@ -62,8 +62,15 @@ var errEOFReadHeader = errs.NewPublic("error when reading request headers: EOF")
 // Write writes request header to w.
 func WriteHeader(h *protocol.RequestHeader, w network.Writer) error {
 	header := h.Header()
-	_, err := w.WriteBinary(header)
-	return err
+	// header is the scratch buffer of h, which the next Set or Header call overwrites,
+	// and the body stream is read before the flush: copy it instead of handing it over
+	// by reference
+	buf, err := w.Malloc(len(header))
+	if err != nil {
+		return err
+	}
+	copy(buf, header)
+	return nil
 }
 
 func ReadHeader(h *protocol.RequestHeader, r network.Reader) error {
